@@ -349,10 +349,12 @@ func (g *G) matching(card bool) string {
 	t := g.t
 	k := ir(t, 0, 5, "matchkind")
 	s := ""
+	onList := ""
 	switch {
 	case k <= 1:
 	case k <= 3:
-		s = " on (" + g.labelList() + ")"
+		onList = g.labelList()
+		s = " on (" + onList + ")"
 	default:
 		s = " ignoring (" + g.labelList() + ")"
 	}
@@ -360,7 +362,20 @@ func (g *G) matching(card bool) string {
 		gk := pick(t, []string{"group_left", "group_right"}, "groupside")
 		inc := " ()" // explicit: a parenthesised right operand would otherwise be read as the include list
 		if chance(t, 1, 2, "include") {
-			inc = " (" + g.labelList() + ")"
+			// a label must not occur in the ON and the GROUP clause at once (parse error)
+			var ls []string
+			for _, l := range strings.Split(g.labelList(), ",") {
+				dup := false
+				for _, o := range strings.Split(onList, ",") {
+					if l == o {
+						dup = true
+					}
+				}
+				if !dup && l != "" {
+					ls = append(ls, l)
+				}
+			}
+			inc = " (" + strings.Join(ls, ",") + ")"
 		}
 		s += " " + gk + inc
 	}
